@@ -16,6 +16,13 @@ func (k msgServer) CreatePool(ctx context.Context, msg *types.MsgCreatePool) (*t
 		return nil, errorsmod.Wrap(err, "invalid authority address")
 	}
 
+	if err := sdk.ValidateDenom(msg.DenomBase); err != nil {
+		return nil, errorsmod.Wrap(err, "invalid base denom")
+	}
+	if err := sdk.ValidateDenom(msg.DenomQuote); err != nil {
+		return nil, errorsmod.Wrap(err, "invalid quote denom")
+	}
+
 	// end static validation
 
 	// TODO: enable later after completion of module - for now, disabled for testing
